@@ -153,9 +153,18 @@ func runBatches(r *vf.Run, stage string, n, batch int, race bool) {
 		if r.Thorough() {
 			timeout = 25 * time.Minute
 		}
+		var env []string
+		if stage == "fuse" {
+			// The client syscalls and the FUSE daemon live in one process. The Go runtime's
+			// preemption signal (SIGURG) would interrupt a thread that waits in a FUSE
+			// request; go-fuse then cancels the request's context and the store answers EIO
+			// ("cancelled by the client", by design). Without asynchronous preemption no such
+			// signal is sent.
+			env = []string{"GODEBUG=asyncpreemptoff=1"}
+		}
 		ex := r.RunChild(vf.ChildSpec{
 			Stage: stage, Args: []string{strconv.Itoa(lo), strconv.Itoa(hi), journal},
-			Race: race, Timeout: timeout, Attribution: attribution, Exclude: exclude,
+			Race: race, Timeout: timeout, Attribution: attribution, Exclude: exclude, Env: env,
 		})
 		open, lastEnd := readJournal(journal)
 		if ex.TimedOut {
